@@ -142,3 +142,13 @@ package server
 //@   assert[asking@C13] at call conn.EnqueueOutFrag#0 :: f.Type == codec.RspAsk ==> (len(f.Req) == len(old(f.Req)) + 16 && f.Req[0] == '*' && f.Req[1] == '1' && f.Req[8] == 'A' && f.Req[9] == 'S' && f.Req[10] == 'K')
 //@   ensures[reset@C13] len(f.RspBody) == 0
 //@   ensures[unknown.resolved@C15] !has(core.EngineGlobal.ProxyPool, addr) ==> (f.Done || f.Peer.Done || !cc(f.Owner).opened)
+
+// ---- a backend connection is gone (C15): every fragment still awaiting its reply must be resolved ----
+//@ func listenServer.OnSClosed
+//@   props C15
+//@   requires s != nil && cc(s).inFragQueue != nil && core.fwf(cc(s).inFragQueue)
+//@   assume at call conn.IsOpened#0 :: frag.Peer != nil
+//@   assert[resolved@C15] at call Errorf#0 :: frag.Peer.Done || !cc(frag.Owner).opened
+//@   ensures[drained@C15] cc(s).inFragQueue.count == 0
+//@   loop 0
+//@     invariant s != nil && cc(s).inFragQueue != nil && core.fwf(cc(s).inFragQueue)
